@@ -4,3 +4,4 @@ import ClvmProofs.Props.C13
 import ClvmProofs.Props.C14
 import ClvmProofs.Props.C22
 import ClvmProofs.Props.C32
+import ClvmProofs.Props.C18
